@@ -101,7 +101,105 @@ fn term_ranges(specs: &[DevSpec]) -> Vec<(usize, usize)> {
 
 // ------------------------------------------------------------------ C09
 
+/// Breadth-first enumeration of every reachable matching on n terminals with a shortest op
+/// path to it. Returns (partner array, path) per matching.
+fn matchings(n: usize) -> Vec<(Vec<Option<usize>>, Vec<(u8, usize, usize)>)> {
+    let mut seen: Vec<(Vec<Option<usize>>, Vec<(u8, usize, usize)>)> = vec![(vec![None; n], Vec::new())];
+    let mut head = 0;
+    while head < seen.len() {
+        let (state, path) = seen[head].clone();
+        head += 1;
+        let mut ops: Vec<(u8, usize, usize)> = Vec::new();
+        for a in 0..n {
+            for b in 0..n {
+                if a != b {
+                    ops.push((0, a, b));
+                }
+            }
+            ops.push((1, a, 0));
+        }
+        for (k, a, b) in ops {
+            let mut st = state.clone();
+            if k == 0 {
+                for x in [a, b] {
+                    if let Some(p) = st[x] {
+                        st[p] = None;
+                        st[x] = None;
+                    }
+                }
+                st[a] = Some(b);
+                st[b] = Some(a);
+            } else if let Some(p) = st[a] {
+                st[p] = None;
+                st[a] = None;
+            }
+            if !seen.iter().any(|(s, _)| *s == st) {
+                let mut p2 = path.clone();
+                p2.push((k, a, b));
+                seen.push((st, p2));
+            }
+        }
+    }
+    seen
+}
+
+/// Number of (matching, operation) pairs for 2..=6 terminals: 8 + 36 + 160 + 650 + 2736.
+pub const C09_PAIRS: u64 = 3590;
+
+/// The k-th (matching, operation) pair in breadth-first order, as a plan: states and commands
+/// on every terminal, the shortest path to the matching, then the operation.
+fn gen_c09_enumerated(prop: &str, rng: &mut Rng, seed: u64, run: u64) -> Plan {
+    let mut k = run;
+    let mut n = 2usize;
+    loop {
+        let cnt = matchings(n).len() as u64 * (n * (n - 1) + n) as u64;
+        if k < cnt {
+            break;
+        }
+        k -= cnt;
+        n += 1;
+    }
+    let ms = matchings(n);
+    let nops = (n * (n - 1) + n) as u64;
+    let (_, path) = &ms[(k / nops) as usize];
+    let mut ops: Vec<(u8, usize, usize)> = Vec::new();
+    for a in 0..n {
+        for b in 0..n {
+            if a != b {
+                ops.push((0, a, b));
+            }
+        }
+        ops.push((1, a, 0));
+    }
+    let last = ops[(k % nops) as usize];
+    let mut plan = Plan::new("device", prop, seed, run);
+    plan.sets("devs", &specs_text(&(0..n).map(|_| DevSpec::Ext).collect::<Vec<_>>()));
+    let mut st = Stamps::new(rng, true, false);
+    for i in 0..n {
+        if rng.chance(0.9) {
+            let t = st.next(rng);
+            plan.push("SS", &[i as i64, t, fb((2.0f32).powi(i as i32)), fb(rng.range(-4, 4) as f32), fb(rng.range(-4, 4) as f32)]);
+        }
+        if rng.chance(0.8) {
+            let t = st.next(rng);
+            cmd_op(&mut plan, rng, i, t);
+        }
+    }
+    for (kind, a, b) in path.iter().chain(std::iter::once(&last)) {
+        if *kind == 0 {
+            plan.push("C", &[*a as i64, *b as i64]);
+        } else {
+            plan.push("D", &[*a as i64]);
+        }
+    }
+    plan
+}
+
 pub fn gen_c09(prop: &str, tier: Tier, rng: &mut Rng, seed: u64, run: u64) -> Plan {
+    if run < C09_PAIRS {
+        // the first runs of every batch enumerate all (matching, operation) pairs exhaustively
+        return gen_c09_enumerated(prop, rng, seed, run);
+    }
     let mut plan = Plan::new("device", prop, seed, run);
     let n = rng.range(2, 6) as usize;
     let specs: Vec<DevSpec> = (0..n).map(|_| DevSpec::Ext).collect();
